@@ -87,7 +87,7 @@ def o_strip_reuse(inp):
     cls = value_classes(v) + [kind] + (["key-with-upper-case"] if key != key.lower() else [])
     nontrivial = any(c.startswith("enclosed:{") or c.startswith('enclosed:"') or c in ("nested", "concatenation", "empty", "single-char") for c in cls)
     lib = _lib(v, kind, key)
-    rem = libgen.maybe_preuse(RemoveEnclosingMiddleware(allow_inplace_modification=inp["inplace"]), v).transform(lib)
+    rem = libgen.maybe_preuse(RemoveEnclosingMiddleware(allow_inplace_modification=inp["inplace"]), v, same=lib).transform(lib)
     want, wkind = strip1(v)
     got = _get(rem, kind, key)
     if got != want:
@@ -105,7 +105,7 @@ def o_strip_reuse(inp):
         if not r:
             continue
         add = AddEnclosingMiddleware(reuse_previous_enclosing=True, enclose_integers=e, default_enclosing=d, allow_inplace_modification=False)
-        back = libgen.maybe_preuse(add, (v, d, e)).transform(rem)
+        back = libgen.maybe_preuse(add, (v, d, e), same=rem).transform(rem)
         if _get(back, kind, key) != v.strip():
             return (("reuse:not-restored", f"{key} = {v!r} -> {got!r} -> {_get(back, kind, key)!r} (default {d!r}, enclose_integers={e})", repr(v.strip())), nontrivial, cls)
     return (None, nontrivial, cls)
